@@ -104,9 +104,13 @@ func (s *sortedSet[ElementType, WeightType]) addSorted(element ElementType) {
 	if listElement, created := s.elements.GetOrCreate(element, func() *sortedSetElement[ElementType, WeightType] {
 		return newSortedSetElement(element, s)
 	}); created {
+		initialUpdate := true
 		listElement.unsubscribeFromWeightUpdates = s.weightVariable(element).OnUpdate(func(_ WeightType, newWeight WeightType) {
-			// only lock if this is not the initial update
-			if listElement.unsubscribeFromWeightUpdates != nil {
+			// only lock if this is not the initial update (which is delivered synchronously while addSorted holds the
+			// mutex); every later update has to acquire the mutex, also if it arrives before OnUpdate has returned
+			if initialUpdate {
+				initialUpdate = false
+			} else {
 				s.mutex.Lock()
 				defer s.mutex.Unlock()
 			}
